@@ -293,6 +293,30 @@ func genC06(env *core.Env, emit func(core.Case)) {
 	}
 	rec(nil)
 	env.Exhaustive(fmt.Sprintf("all histories of length <= %d over a 15-letter alphabet after an accepted first hello (and <= %d after a passed-through one)", L, min(L, 3)))
+	// the retry rules again with what real deployments add: several held keys sharing the config id
+	// (another public name first), and the client's compatibility change_cipher_spec before its second hello
+	idx := 0
+	for rep := 0; rep < env.Pick(6, 60); rep++ {
+		for _, rc := range retryCases(r) {
+			idx++
+			s, first, rd := runRetryCase(rc, 70000)
+			w := ""
+			switch {
+			case first.Err != "-" || !first.Accepted:
+				w = "first hello of the retry history not accepted: " + first.Err
+			case rc.Class == "" && (rd.Err != "-" || len(rd.Data) == 0):
+				w = fmt.Sprintf("well-formed retried hello not replaced by its inner hello: err=%s, %d bytes (%d keys, ccs=%v)", rd.Err, len(rd.Data), len(rc.Keys), rc.CCS)
+			case rc.Class != "" && rd.Err != rc.Class:
+				w = fmt.Sprintf("retried hello %s: error class %s, want %s (%d keys, ccs=%v)", rc.Kind, rd.Err, rc.Class, len(rc.Keys), rc.CCS)
+			case rc.Class != "" && len(rd.Data) != 0:
+				w = "bytes of an ill-formed retried hello were delivered to the backend"
+			}
+			s.X("retry rules with several same-id keys / with the compatibility change_cipher_spec", w)
+			emit(core.Case{Name: fmt.Sprintf("retrycase-%s/%d", rc.Kind, idx), Stream: "retry-cases", Ops: s.Ops, Key: "retrycase-" + rc.Kind,
+				Sig: fmt.Sprintf("retrycase-%s/keys%d/ccs%v/%s", rc.Kind, len(rc.Keys), rc.CCS, rd.Err), Sample: map[string]any{"kind": rc.Kind, "keys": len(rc.Keys), "ccs": rc.CCS, "outcome": rd.Err}})
+			env.Count(fmt.Sprintf("retry-cases/keys%d/ccs%v", len(rc.Keys), rc.CCS))
+		}
+	}
 }
 
 // retryCase is one "hello, HelloRetryRequest, second hello" history with an ill-formed (or, kind G,
@@ -304,6 +328,7 @@ type retryCase struct {
 	First  []byte
 	HRR    []byte
 	Second []byte
+	CCS    bool // the client sends its compatibility change_cipher_spec before the second hello (RFC 8446 D.4)
 }
 
 func retryCases(r *rand.Rand) []retryCase {
@@ -371,7 +396,12 @@ func retryCases(r *rand.Rand) []retryCase {
 			h.Exts = slices.Delete(h.Exts, i, i+1)
 			second = h.Record(0x0303)
 		}
-		out = append(out, retryCase{Kind: kind, Class: classOf[kind], Keys: echKeys(key), First: s1.Rec, HRR: hrr, Second: second})
+		keys := echKeys(key)
+		if r.IntN(2) == 0 {
+			// another deployment's key under the same one-byte id (other public name), listed first
+			keys = echKeys(gen.NewKey(r, key.ID, "elsewhere-public.example", gen.AllSuites), key)
+		}
+		out = append(out, retryCase{Kind: kind, Class: classOf[kind], Keys: keys, First: s1.Rec, HRR: hrr, Second: second, CCS: r.IntN(2) == 0})
 	}
 	return out
 }
@@ -387,7 +417,13 @@ func runRetryCase(rc retryCase, readSize int) (s *connh.Sess, first connh.NewRes
 	}
 	s.Read(70000)
 	s.Write(rc.HRR)
-	s.Feed([][]byte{rc.Second}, "eof")
+	if rc.CCS {
+		ccs := gen.Record(20, 0x0303, []byte{1})
+		s.Feed([][]byte{ccs, rc.Second}, "eof")
+		s.Read(70000) // the change_cipher_spec record
+	} else {
+		s.Feed([][]byte{rc.Second}, "eof")
+	}
 	rd = s.Read(readSize)
 	return
 }
